@@ -23,7 +23,9 @@ code->spec: random DSDL namespaces (nested namespaces, several versions of one t
             whole namespace / dependency-closed subsets / permuted order / PYTHONHASHSEED / reused LanguageContext /
             reused generator object with other generate_all flags / edited definitions; every written file is logged by a
             harness FilePostProcessor and judged by specs/GenSiblingsTrace.tla (clause sib.digest).
-All runs of one scenario happen in ONE interpreter (a child forked from a pristine worker, so a scenario is self-contained).
+All runs of one scenario happen in ONE interpreter (a child forked from a pristine worker, so a scenario is self-contained);
+a part of the scenarios is answered again by a second interpreter with another hash seed (the confusable-name family there with
+its runs in the opposite order: state that lives as long as the process).
 """
 import difflib
 import hashlib
@@ -314,8 +316,10 @@ def write_defs(root, files):
         p.write_text(text)
 
 
-def run_scenario(sc, work, seed):
-    """Executes all runs of one scenario in THIS interpreter; returns the list of genfile events."""
+def run_scenario(sc, work, seed, alt=False):
+    """Executes all runs of one scenario in THIS interpreter; returns the list of genfile events.  With `alt` a scenario that
+    has an alternative execution order (`order_b`: a permutation of the run indices) is executed in that order: what another
+    interpreter answers for the same keys after another history (state that lives as long as the process)."""
     import gzip
     import types as _types
 
@@ -338,7 +342,8 @@ def run_scenario(sc, work, seed):
     src_cache = {}
     tpl = sc["tpl"]
     names = sc.get("names") or {}
-    for ri, run in enumerate(sc["runs"]):
+    for ri in ((sc.get("order_b") if alt else None) or range(len(sc["runs"]))):
+        run = sc["runs"][ri]
         lang = run["lang"]
         if run["d"] != on_disk:
             write_defs(dsdl, sc["defsets"][run["d"]])
@@ -490,7 +495,7 @@ def worker_main(jobfile, outfile):
             if pid == 0:
                 rc = 0
                 try:
-                    evs = run_scenario(sc, work, seed)
+                    evs = run_scenario(sc, work, seed, bool(job.get("alt")))
                     with open(tmp, "w") as f:
                         json.dump(evs, f)
                 except BaseException:
@@ -592,17 +597,17 @@ def model_defsets(ntypes=4, stem=None, docs=False, pair=None):
         if stem:
             f = {k.replace("A2.1.0", stem + ".1.0"): v.replace("mr.A2.1.0", "mr.%s.1.0" % stem) for k, v in f.items()}
             f["mr/A1.1.0.dsdl"] = f["mr/A1.1.0.dsdl"].replace("@sealed", "uint8 %s_1_0\n@sealed" % stem)
-        elif pair:
-            for old, new in (("A1.1.0", pair[0]), ("A2.1.0", pair[1])):
-                f = {("mr/%s.dsdl" % conf_path(new) if k == "mr/%s.dsdl" % old else k): v.replace("mr." + old, "mr." + new) for k, v in f.items()}
         if docs:
             # the second type's documentation has indented lines, the documentation of the others is long enough to be wrapped
             f = {k: with_docs(v, *(("list", "listlong") if k.split("/")[1].split(".")[0] in ("A2", stem) else ("long", "mixed"))) for k, v in f.items()}
+        if pair and not stem:
+            for old, new in (("A1.1.0", pair[0]), ("A2.1.0", pair[1])):
+                f = {("mr/%s.dsdl" % conf_path(new) if k == "mr/%s.dsdl" % old else k): v.replace("mr." + old, "mr." + new) for k, v in f.items()}
         res.append(f)
     return res
 
 
-def model_scenario(sid, rec, lang, kind, builtin=False):
+def model_scenario(sid, rec, lang, kind, builtin=False, pairidx=None):
     """a history emitted by TLC (shape, limit, runs with abstract files) -> executable scenario (mirror templates, or the same
     history of subsets/orders/reuse modes/definition sets through the built-in templates)"""
     shape = {k: (bool(v) if k in ("mod", "inc") else int(v)) for k, v in rec["shape"].items()}
@@ -617,7 +622,9 @@ def model_scenario(sid, rec, lang, kind, builtin=False):
     docs = bool(int(rec.get("docs", 0)))
     pair = None
     if int(rec.get("conf", 0)) and not stem:
-        pair = CONF_PAIRS[sid % len(CONF_PAIRS)]
+        pair = CONF_PAIRS[(sid if pairidx is None else pairidx) % len(CONF_PAIRS)]
+        if conf_stem(pair[0]) > conf_stem(pair[1]):
+            pair = (pair[1], pair[0])  # the model lists the includes of type 3 by type number, the generators by path
     shape["der"] = bool(pair)
     tname = {t: ("mr.%s.1.0" % stem if (stem and t == 2) else "mr.A%d.1.0" % t) for t in range(1, 5)}
     if pair:
@@ -1038,7 +1045,7 @@ def canonical_derived_scenarios(sid0):
     defs, members = {}, []
     for g in CONFUSABLE:
         for i, n in enumerate(g):
-            defs["vr/%s.dsdl" % conf_path(n)] = "%s m%d\n@sealed\n" % (PRIMS[i], i)
+            defs["vr/%s.dsdl" % conf_path(n)] = "%s m%d\nuint8[<=2] va\n@sealed\n" % (PRIMS[i], i)
             members.append("vr." + n)
     defs["vr/Svc.1.0.dsdl"] = "uint8 q\n@sealed\n---\nuint16 r\n@sealed\n"
     defs["vr/Svc_Request.1.0.dsdl"] = "uint8 q\n@sealed\n"
@@ -1055,7 +1062,9 @@ def canonical_derived_scenarios(sid0):
     for lang in LANGS:
         for tpl in ({"id": "builtin"},
                     {"id": "mirror", "shape": {"lead": 0, "trail": 0, "lit": 0, "dyn": 0, "mod": False, "inc": True, "nam": False, "der": True}}):
-            base = {"lang": lang, "langopts": None, "pps": {"limit": None}, "tap": True, "omit": False, "embed": False, "d": 0, "gen": "fresh", "lctx": "fresh"}
+            # the option makes the built-in C / C++ templates emit more macros derived from names
+            lo = {"enable_override_variable_array_capacity": True} if lang in ("c", "cpp") and tpl["id"] == "builtin" else None
+            base = {"lang": lang, "langopts": lo, "pps": {"limit": None}, "tap": True, "omit": False, "embed": False, "d": 0, "gen": "fresh", "lctx": "fresh"}
             runs = [dict(base, types=None), dict(base, types=list(reversed(everything))), dict(base, types=everything, lctx="same")]
             runs.append(dict(runs[-1], gen="same"))
             for i, m in enumerate(members):
@@ -1065,6 +1074,10 @@ def canonical_derived_scenarios(sid0):
                      dict(base, types=list(reversed(users["UseA"])), lctx="same"), dict(base, types=users["UseB"]),
                      dict(base, types=list(reversed(members))), dict(base, types=None, lctx="same")]
             res.append({"sid": sid0 + len(res), "kind": "canonical", "defsets": [defs], "rootns": "vr", "lookup": [], "tpl": tpl, "names": {}, "runs": runs})
+            if tpl["id"] == "mirror":
+                # a second interpreter answers in the opposite order: a registry that lives as long as the process is first-come
+                # there too (the mirror template shows the names through the target's own filters; its runs are cheap)
+                res[-1]["order_b"] = list(reversed(range(len(runs))))
     return res
 
 
@@ -1072,7 +1085,10 @@ def canonical_derived_scenarios(sid0):
 # Part 3 - driver, judgement
 # =====================================================================================================================
 
-def execute(ctx, scenarios, seeds, tag):
+SEED_B0 = 1000  # hash seeds of the second execution (phase B) start here; phase B uses a scenario's alternative run order
+
+
+def execute(ctx, scenarios, seeds, tag, alt=False):
     """Distributes scenarios over worker interpreters (one PYTHONHASHSEED each); returns {sid: [events...]} and errors."""
     from ..core import MachineryFailure, NCPU, REPO, VERIF
 
@@ -1090,7 +1106,7 @@ def execute(ctx, scenarios, seeds, tag):
     for w in range(nw):
         jf = ctx.scratch / ("job-%s-%d.json" % (tag, w))
         of = ctx.scratch / ("res-%s-%d.ndjson" % (tag, w))
-        jf.write_text(json.dumps({"base": str(base), "scenarios": jobs[w]}))
+        jf.write_text(json.dumps({"base": str(base), "scenarios": jobs[w], "alt": bool(alt)}))
         e = dict(env)
         e["PYTHONHASHSEED"] = str(seeds[w])
         procs.append((subprocess.Popen([sys.executable, "-m", "vf.props.c10", "--worker", str(jf), str(of)], env=e, cwd=str(VERIF),
@@ -1178,7 +1194,8 @@ def diff_classes(e1, e2):
 def describe(sc, ev):
     r = sc["runs"][ev["run"]]
     return "run %d (defs %d, %s context, %s generator, omit=%s, %d listed types [0 = whole namespace]) file #%d hash seed %s" % (
-        ev["run"], r["d"], r.get("lctx"), r.get("gen"), r.get("omit"), len(r["types"]) if r.get("types") else 0, ev["ord"], ev["seed"])
+        ev["run"], r["d"], r.get("lctx"), r.get("gen"), r.get("omit"), len(r["types"]) if r.get("types") else 0, ev["ord"], ev["seed"]) + (
+            " [second interpreter: runs executed in the opposite order]" if sc.get("order_b") and ev["seed"] >= SEED_B0 else "")
 
 
 def validate_batches(ctx, batches):
@@ -1351,13 +1368,13 @@ def run(ctx):
         step = max(1, len(hs) // ctx.pick(24, 120))
         for i, h in enumerate(hs[::step]):
             plang = {"neg_fold": ["cpp"], "neg_depkey": ["c", "cpp"], "neg_strop": ["c", "c", "cpp", "py"], "neg_filter": ["cpp", "cpp", "html", "cpp", "c", "py"]}.get(cfg, ["c", "cpp", "py", "html"])
-            sc = model_scenario(sid, h, plang[i % len(plang)], "predicted:" + cfg)
+            sc = model_scenario(sid, h, plang[i % len(plang)], "predicted:" + cfg, pairidx=i // 4)  # every target meets every confusable pair
             scen[sid] = sc
             pred[sid] = cfg
             sid += 1
             if (i % 3 == 0 and cfg in ("neg_depkey", "neg_limiter", "neg_strop", "neg_filter")) or cfg == "neg_registry":
                 blang = {"neg_limiter": LANGS, "neg_strop": ["c", "c", "py", "cpp"], "neg_filter": ["cpp", "cpp", "html", "cpp", "c", "py"]}.get(cfg, ["c", "cpp"])
-                scen[sid] = model_scenario(sid, h, (LANGS[i % 4] if cfg == "neg_registry" else blang[(i // 3) % len(blang)]), "predicted:" + cfg, builtin=True)
+                scen[sid] = model_scenario(sid, h, (LANGS[i % 4] if cfg == "neg_registry" else blang[(i // 3) % len(blang)]), "predicted:" + cfg, builtin=True, pairidx=i // 4)
                 sid += 1
     n_pred = sid
 
@@ -1409,8 +1426,8 @@ def run(ctx):
     all_sc = [scen[i] for i in sorted(scen)]
     seeds_a = [11 + 7 * i for i in range(16)]
     ev_a = execute(ctx, all_sc, seeds_a, "a")
-    part_b = [sc for sc in all_sc if sc["sid"] % ctx.pick(5, 4) == 0]
-    ev_b = execute(ctx, part_b, [1000 + 3 * i for i in range(16)], "b")
+    part_b = [sc for sc in all_sc if sc["sid"] % ctx.pick(5, 4) == 0 or sc.get("order_b")]
+    ev_b = execute(ctx, part_b, [SEED_B0 + 3 * i for i in range(16)], "b", alt=True)
     events, seeds_by_sid = {}, {}
     for src in (ev_a, ev_b):
         for s, evs in src.items():
@@ -1515,7 +1532,7 @@ def replay(ctx, case):
     seeds = case.get("seeds") or [11]
     events, sb = {}, {}
     for i, s in enumerate(seeds):
-        r = execute(ctx, [sc], [s], "r%d" % i)
+        r = execute(ctx, [sc], [s], "r%d" % i, alt=s >= SEED_B0)
         for k, v in r.items():
             events.setdefault(k, []).extend(v)
             sb.setdefault(k, []).append(s)
